@@ -51,9 +51,13 @@ let () =
     | ["econ"; v] -> econ := (int_of_string v <> 0)
     | "cmap" :: is16 :: count :: data ->
         cm := { cm_is16 = (int_of_string is16 <> 0); cm_count = zi count; cm_data = List.map zi data }
-    | ["setup"] ->
+    | ["setup"] | ["setupmsg"; _; _] as ws ->
         state := None;
-        (match set_translate !econ !sf !cf with
+        (* a SetPixelFormat message delivers the two flags as bytes: any non-zero value is true *)
+        let cfv = (match ws with
+                   | ["setupmsg"; b; t] -> { !cf with be = (int_of_string b <> 0); tc = (int_of_string t <> 0) }
+                   | _ -> !cf) in
+        (match set_translate !econ !sf cfv with
          | SetupErr _ -> print_endline "setup ok=0"
          | SetupCrash -> print_endline "setup crash"
          | SetupOk (cf', st, msg) ->
@@ -61,6 +65,22 @@ let () =
              tcm := !cm;
              Printf.printf "setup ok=1 fn=%s cf=%s msg=%s %s\n" (match st with SNone -> "none" | _ -> "table")
                (fmt_s cf') (if msg = [] then "-" else hex_of_bytes msg) (tbl_s st cf'))
+    | ["newfb"; bps; _; bytespp] ->
+        (match !state with
+         | None -> print_endline "newfb nosetup"
+         | Some (cfe, st) ->
+             let (sf', r) = new_framebuffer !econ !sf (zi bytespp) (zi bps) cfe in
+             sf := sf'; cm := empty_cmap;
+             (match r with
+              | None -> Printf.printf "newfb sf=%s client ok=1 fn=%s cf=%s msg=- %s\n" (fmt_s sf')
+                          (match st with SNone -> "none" | _ -> "table") (fmt_s cfe) (tbl_s st cfe)
+              | Some (SetupOk (cf', st', msg)) ->
+                  state := Some (cf', st'); tcm := empty_cmap;
+                  Printf.printf "newfb sf=%s client ok=1 fn=%s cf=%s msg=%s %s\n" (fmt_s sf')
+                    (match st' with SNone -> "none" | _ -> "table") (fmt_s cf')
+                    (if msg = [] then "-" else hex_of_bytes msg) (tbl_s st' cf')
+              | Some SetupCrash -> state := None; print_endline "newfb crash"
+              | Some (SetupErr _) -> state := None; Printf.printf "newfb sf=%s ok=0\n" (fmt_s sf')))
     | "recmap" :: ready :: is16 :: count :: data ->
         cm := { cm_is16 = (int_of_string is16 <> 0); cm_count = zi count; cm_data = List.map zi data };
         (match !state with
